@@ -374,7 +374,10 @@ func init() {
 		run := evid.NewRun("C05", tier)
 		mc := modelCheck("MC_Session", "MC_Session.cfg", 16)
 		gs := dumpEdges("MC_Session", "Dump_Session.cfg")
-		st := tourSome(run, gs, func(e *sessrep.Edge) bool { return e.Lbl.Cmd.C == "BDAT" })
+		// (every BDAT command, and whatever abandons or ends a transfer between two chunks)
+		st := tourSome(run, gs, func(e *sessrep.Edge) bool {
+			return e.Lbl.Cmd.C == "BDAT" || (e.Src.Bdat != "none" && (e.Dst.Bdat == "none" || e.Dst.Closed))
+		})
 		zmc := modelCheck("MC_Size", "MC_Size.cfg", 16)
 		zs := tourSome(run, dumpEdges("MC_Size", "Dump_Size.cfg"), func(e *sessrep.Edge) bool { return e.Lbl.Cmd.C == "BDAT" })
 		nconv := 300
